@@ -70,7 +70,7 @@ let count_opt z = let c = szw z in if z_eq c umax64 then None else Some c
 let mix_of = function
   | 'P' | 'i' | 'm' -> Some (None, None)
   | 'C' -> Some (Some 0, Some 2)
-  | 'K' | 'j' -> Some (Some 1, Some 3)
+  | 'K' | 'j' | 'z' -> Some (Some 1, Some 3)
   | 'a' -> Some (Some 0, None)
   | 'b' | 'u' -> Some (Some 2, None)
   | 'c' | 'h' | 'w' -> Some (None, Some 3)
